@@ -370,3 +370,65 @@ func VerifC09_IntegrityCheck() { verifC09(true) }
 // entry of each family (same family: adjacent keys, so a repair that deletes
 // under its own cursor must not skip the neighbour)
 func VerifC09_TwoCorruptions() { verifC09P(true, false, true) }
+
+// VerifC09_FkConstraintDangling: the fk is wired as a nullable fk *constraint*
+// (no back-reference set). One or both emps reference an entity that does not
+// exist (ids adjacent): check mode reports each and changes nothing; a fix run
+// clears the dangling references, after which a re-check is clean and the
+// references that were fine are untouched.
+func VerifC09_FkConstraintDangling() {
+	cfg := vStoreCfg{nickNullable: true, fk: vFkConstraintRestrict, fkToDept: true}
+	env := verifNewEnv(cfg)
+	defer env.close()
+	env.createDepts(vDeptIds...)
+	x := vDeptIds[0]
+	for e := 0; e < 2; e++ {
+		ent := &vEmp{Id: vIds[e], Name: "N" + vIds[e], Boss: &x}
+		err := env.update(func(ctx MutateContext) error { return env.emp.Create(ctx, ent) })
+		verifrt.Assert(err == nil, "C09 population setup succeeds")
+	}
+	s, err := env.checkIntegrity(verifrt.Bool("fix.clean"))
+	verifrt.Assert(err == nil && s.total == 0, "C09 a consistent database is reported clean (fk constraint wiring)")
+	dangling := [2]bool{verifrt.Bool("dangling.a"), verifrt.Bool("dangling.ab")}
+	n := 0
+	err = env.db.Update(nil, func(ctx MutateContext) error {
+		for e := 0; e < 2; e++ {
+			if dangling[e] {
+				n++
+				eb := env.emp.GetEntityBucket(ctx.Tx(), []byte(vIds[e]))
+				eb.SetString(vFBoss, []string{"ghost", "ghosu"}[e], nil)
+				if eb.GetError() != nil {
+					return eb.GetError()
+				}
+			}
+		}
+		return nil
+	})
+	verifrt.Assert(err == nil, "C09 corruption injected")
+	var before []vDumpEntry
+	env.view(func(tx *bbolt.Tx) { before = verifDump(tx) })
+	if !verifrt.Bool("fix") {
+		s, err = env.checkIntegrity(false)
+		verifrt.Assert(err == nil && s.total >= n && s.fixed == 0, "C09 check mode reports every dangling reference and marks nothing fixed")
+		env.view(func(tx *bbolt.Tx) {
+			verifrt.Assert(verifDumpEqual(before, verifDump(tx)), "C09 check mode leaves the database unchanged")
+		})
+		return
+	}
+	s, err = env.checkIntegrityW(true, verifrt.Bool("write.first"))
+	verifrt.Assert(err == nil && s.total >= n, "C09 fix mode reports every dangling reference")
+	s2, err := env.checkIntegrity(false)
+	verifrt.Assert(err == nil && s2.total == 0, "C09 a re-check after one fix run is clean (fk constraint wiring)")
+	env.view(func(tx *bbolt.Tx) {
+		for e := 0; e < 2; e++ {
+			ent, found, ferr := env.emp.FindById(tx, vIds[e])
+			ok := ferr == nil && found
+			if ok && dangling[e] {
+				ok = ent.Boss == nil
+			} else if ok {
+				ok = ent.Boss != nil && *ent.Boss == x
+			}
+			verifrt.Assert(ok, "C09 a dangling nullable reference is cleared, a valid one is left alone")
+		}
+	})
+}
